@@ -52,6 +52,12 @@ PURE_FUNCS = {
 }
 def _searchsorted(a, v, side='left', sorter=None):
     import bisect
+    try:
+        import numpy
+        if isinstance(a, numpy.ndarray) or isinstance(v, numpy.ndarray):
+            return numpy.searchsorted(a, v, side=side)
+    except ImportError:
+        pass
     a = list(a)
     one = (lambda x: bisect.bisect_left(a, x)) if side == 'left' else (lambda x: bisect.bisect_right(a, x))
     if isinstance(v, (list, tuple)):
